@@ -91,7 +91,7 @@ func WriteConfigFile(path string, c *Config) error {
 		for _, name := range slices.Sorted(maps.Keys(c.Requirements)) {
 			req := c.Requirements[name]
 
-			mustQuote := strings.ContainsFunc(name, func(r rune) bool { return !isPlainRune(r) })
+			mustQuote := name == "" || strings.ContainsFunc(name, func(r rune) bool { return !isPlainRune(r) })
 			if mustQuote {
 				name = encodeValue(name)
 			}
